@@ -38,7 +38,9 @@ Parse(s) == ParseFrom(s, 1, 0)
 
 RECURSIVE Pow16(_)
 Pow16(n) == IF n = 0 THEN 1 ELSE 16 * Pow16(n - 1)
-Digits(v, size) == [k \in 1..size |-> HexChar((v \div Pow16(size - k)) % 16)]
+\* nibble k (0 = least significant) of a value below 2^28 (TLC integers): positions 7 and above are leading zeros
+NibOf(v, k) == IF k >= 7 THEN 0 ELSE (v \div Pow16(k)) % 16
+Digits(v, size) == [k \in 1..size |-> HexChar(NibOf(v, size - k))]
 Response(v, size) == <<ChEq>> \o Digits(v, size) \o <<ChBang>>
 
 \* actions visible in a per-cycle record of the decoder outputs (rising edges carry the numbers)
@@ -85,7 +87,7 @@ ReqNext(r, valid, c) ==
 \* --------------------------------------------------- CMDResponse (as the code)
 RespInit == [state |-> 0, temp |-> 0, tsize |-> 0, aux |-> 0, valid |-> 0, v |-> 0]
 
-Nib(x, k) == (x \div Pow16(k)) % 16
+Nib(x, k) == IF k >= 7 THEN 0 ELSE (x \div Pow16(k)) % 16
 
 RespNext(r, start, vin, size, ready) ==
     LET st == r.state IN
